@@ -119,7 +119,7 @@ def corpus_defs(tier):
     d['mutbytes'] = dict(trace='TraceFn', kind='fnlist', gen='mutbytes')
     d['mutframes'] = dict(trace='TraceMuxide', rand=[dict(gen='mutframes', n=0, rel=None, facets=None)])
     # --- bound: numeric embedding, values just below / on / above the 32-bit field limits (C16) -------
-    d['bound'] = dict(trace='TraceMuxide', rand=[dict(gen='bound', n=0, rel=None, facets=None)])
+    d['bound'] = dict(trace='TraceMuxide', rand=[dict(gen='bound', n=0, rel=None, facets=None), dict(gen='widths', n=0, rel='none', facets=None)])
     d['boundfrag'] = dict(trace='TraceFrag', rand=[dict(gen='boundfrag', n=0, rel=None, facets=None)])
     # --- cli: the built muxide binary vs. the in-process library (C20) -----------------------------
     d['cli'] = dict(trace='TraceCli', rand=[dict(gen='cli', n=0, rel=None, facets=None)], cli_info=True)
